@@ -524,7 +524,7 @@ func main() {
 func blsAggregate(seed int64, emit func(line)) {
 	run := func(name string, f func(kind string, n int, rng interface{ Intn(int) int }) (acc bool, panicked bool)) {
 		rng := vlib.Rng(seed, "blsagg"+name)
-		for _, kind := range []string{"permuted", "duplicated", "missing", "other-msg", "identity-sig", "sig-append"} {
+		for _, kind := range []string{"permuted", "duplicated", "missing", "other-msg", "identity-sig", "sig-append", "identity-pk", "identity-pk-single"} {
 			ln := line{Ev: "blsagg", Variant: name, Site: kind, SizeOK: true, Det: true}
 			for n := 2; n <= 4; n++ {
 				for rep := 0; rep < 2; rep++ {
@@ -580,6 +580,23 @@ func aggCase[K bls.KeyGroup](kind string, n int, rng interface{ Intn(int) int })
 		agg[0] = 0xc0
 	case "sig-append":
 		agg = append(append([]byte{}, agg...), 1, 2)
+	case "identity-pk", "identity-pk-single":
+		// a public key decoded from the encoding of the point at infinity must be refused, whatever the signature
+		pkb, _ := pubs[0].MarshalBinary()
+		idk := make([]byte, len(pkb))
+		idk[0] = 0xc0
+		var ipk bls.PublicKey[K]
+		if ipk.UnmarshalBinary(idk) != nil {
+			return false, false // refused at decoding: fine
+		}
+		ids := make([]byte, len(agg))
+		ids[0] = 0xc0
+		if kind == "identity-pk-single" {
+			p, _ := safe(func() { acc = bls.Verify(&ipk, msgs[0], ids) })
+			return acc, p
+		}
+		// honest aggregate of the others plus an identity key "signing" a message nobody signed
+		pubs, msgs = append(pubs, &ipk), append(msgs, []byte("never signed"))
 	}
 	p, _ := safe(func() { acc = bls.VerifyAggregate(pubs, msgs, agg) })
 	return acc, p
